@@ -7,7 +7,8 @@
       they are stale on the real code too (known findings) — the full statements `C11_*_full` are REFUTED on concrete witnesses
       (C11_witness_*), the `…_partial` theorems hold for every history that avoids those three pairs;
     * TrafficLightCycle with its real data: no exclusion (C11_cycle_fresh, C11_cycle_follows_definition);
-    * history lists: any history, every update with its own bound, all four lists (C11_history_general);
+    * history lists: any history, every update with its own bound, all four lists; the state history moves with the obstacle
+      (`translate_rotate` on obstacle / scenario level), each recorded state by the motions since it was replaced (C11_history_general);
     * declared side conditions of the network theorems: no `rtree=False` call (it asks for a stale index), mutators run to
       completion (`translate_rotate` raises half way on 3-D vertices), objects handed in (new prediction / new lanelet) have
       coherent caches of their own.
@@ -338,7 +339,7 @@ def Obs.EqLen (o : Obs) : Prop :=
 theorem C11_history_step (o : Obs) (hd : o.dynamic = true) (he : o.EqLen) (v : Nat) (t0 : Int) (sig cen shp : Nat)
     (m : Int) (hm : 0 < m) :
     let r := o.step (.updateInitialState v t0 sig cen shp m)
-    r.1 = .unit ∧ r.2.hist = lastN m.toNat (o.hist ++ [o.init]) ∧ r.2.sigHist = lastN m.toNat (o.sigHist ++ [o.sig]) ∧
+    r.1 = .unit ∧ r.2.hist = lastN m.toNat (o.hist ++ [⟨o.init, []⟩]) ∧ r.2.sigHist = lastN m.toNat (o.sigHist ++ [o.sig]) ∧
     r.2.cenHist = lastN m.toNat (o.cenHist ++ [o.cen]) ∧ r.2.shpHist = lastN m.toNat (o.shpHist ++ [o.shp]) ∧
     r.2.init = v ∧ r.2.t0 = t0 ∧ r.2.pred = none ∧ r.2.hist.length ≤ m.toNat := by
   obtain ⟨e1, e2, e3⟩ := he
@@ -350,7 +351,7 @@ theorem C11_history_step (o : Obs) (hd : o.dynamic = true) (he : o.EqLen) (v : N
     simp only [lastN_length, List.length_append, List.length_cons, List.length_nil, true_and]
     omega
   · next hge =>
-    have hl : (o.hist ++ [o.init]).length ≤ m.toNat := by omega
+    have hl : (o.hist ++ [(⟨o.init, []⟩ : HTok)]).length ≤ m.toNat := by omega
     simp only [List.length_append, List.length_cons, List.length_nil] at hl
     refine ⟨rfl, ?_, ?_, ?_, ?_, rfl, rfl, rfl, by simpa using hl⟩ <;>
       (rw [lastN_of_le]; simp only [List.length_append, List.length_cons, List.length_nil]; omega)
@@ -397,43 +398,71 @@ def updatesOf (dyn : Bool) (c : Cur) : List ObsOp → List (Cur × Nat)
      | .updateInitialState _ _ _ _ _ m => if dyn && decide (0 < m) then [(c, m.toNat)] else []
      | _ => []) ++ updatesOf dyn (c.next dyn op) ops
 
-/-- Append-and-cut, one update after the other, each with ITS OWN bound. -/
+/-- Append-and-cut, one update after the other, each with ITS OWN bound (the three lists that are not spatial). -/
 def cutAll (f : Cur → Nat) (h : List Nat) (us : List (Cur × Nat)) : List Nat :=
   us.foldl (fun h u => lastN u.2 (h ++ [f u.1])) h
+
+/-- What happens to the state history: an accepted update (replaced values, bound) or a motion of the obstacle. -/
+inductive HEv where
+  | upd (c : Cur) (m : Nat)
+  | move (v : Nat)
+  deriving DecidableEq, Repr
+
+/-- The history events of a sequence of operations, in order — read off the operations alone: accepted
+    `update_initial_state` calls, and `translate_rotate` on the (dynamic) obstacle or its scenario. -/
+def eventsOf (dyn : Bool) (c : Cur) : List ObsOp → List HEv
+  | [] => []
+  | op :: ops =>
+    (match op with
+     | .updateInitialState _ _ _ _ _ m => if dyn && decide (0 < m) then [.upd c m.toNat] else []
+     | .translateRotate v => if dyn then [.move v] else []
+     | _ => []) ++ eventsOf dyn (c.next dyn op) ops
+
+/-- The state history after a sequence of events: an update appends the replaced initial state (not yet moved) and keeps
+    the last `m`; a motion moves EVERY recorded state (they are world-frame states). -/
+def histAll (h : List HTok) (evs : List HEv) : List HTok :=
+  evs.foldl (fun h e => match e with
+    | .upd c m => lastN m (h ++ [⟨c.init, []⟩])
+    | .move v => h.map (HTok.move v)) h
 
 theorem step_cur (o : Obs) (op : ObsOp) : (o.step op).2.cur = o.cur.next o.dynamic op ∧ (o.step op).2.dynamic = o.dynamic := by
   cases op <;> simp only [Obs.step, Obs.onTPred, Cur.next, Obs.cur] <;> (repeat' split) <;> simp_all <;> omega
 
 theorem step_hist {o : Obs} (he : o.EqLen) (op : ObsOp) :
     let us := updatesOf o.dynamic o.cur [op]
-    (o.step op).2.hist = cutAll (·.init) o.hist us ∧ (o.step op).2.sigHist = cutAll (·.sig) o.sigHist us ∧
+    (o.step op).2.hist = histAll o.hist (eventsOf o.dynamic o.cur [op]) ∧ (o.step op).2.sigHist = cutAll (·.sig) o.sigHist us ∧
     (o.step op).2.cenHist = cutAll (·.cen) o.cenHist us ∧ (o.step op).2.shpHist = cutAll (·.shp) o.shpHist us := by
   cases op with
   | updateInitialState v t0 sig cen shp m =>
     cases hd : o.dynamic with
-    | false => simp [Obs.step, hd, updatesOf, cutAll]
+    | false => simp [Obs.step, hd, updatesOf, eventsOf, cutAll, histAll]
     | true =>
       by_cases hm : 0 < m
       · have := C11_history_step o hd he v t0 sig cen shp m hm
-        simp only [updatesOf, hd, hm, decide_true, Bool.and_self, if_true, List.append_nil, cutAll, List.foldl_cons,
-          List.foldl_nil, Obs.cur]
+        simp only [updatesOf, eventsOf, hm, decide_true, Bool.and_self, if_true, List.append_nil, cutAll, histAll,
+          List.foldl_cons, List.foldl_nil, Obs.cur]
         exact ⟨this.2.1, this.2.2.1, this.2.2.2.1, this.2.2.2.2.1⟩
       · have hm' : m ≤ 0 := by omega
-        simp [Obs.step, hd, hm', hm, updatesOf, cutAll]
-  | _ => simp only [Obs.step, Obs.onTPred, updatesOf, cutAll] <;> (repeat' split) <;> simp_all
+        simp [Obs.step, hd, hm', hm, updatesOf, eventsOf, cutAll, histAll]
+  | translateRotate v => cases hd : o.dynamic <;> simp [Obs.step, hd, updatesOf, eventsOf, cutAll, histAll]
+  | _ => simp only [Obs.step, Obs.onTPred, updatesOf, eventsOf, cutAll, histAll] <;> (repeat' split) <;> simp_all
 
 theorem cutAll_append (f : Cur → Nat) (h : List Nat) (us vs : List (Cur × Nat)) :
     cutAll f h (us ++ vs) = cutAll f (cutAll f h us) vs := by
   simp [cutAll, List.foldl_append]
 
+theorem histAll_append (h : List HTok) (us vs : List HEv) : histAll h (us ++ vs) = histAll (histAll h us) vs := by
+  simp [histAll, List.foldl_append]
+
 /-- C11 history clause, general form: after ANY history (any operations, every `update_initial_state` with its own
-    `max_history_length` — also a bound that is LOWERED later), each of the four history lists is what results from
-    appending the replaced value and keeping the last `mᵢ` entries, update after update, in order. -/
+    `max_history_length` — also a bound that is LOWERED later — and any `translate_rotate` of the obstacle / scenario in
+    between): `history` results from appending the replaced initial state and keeping the last `mᵢ` entries, update after
+    update, with every recorded state moved by every later motion; the three non-spatial lists likewise without the motions. -/
 theorem C11_history_general : ∀ (ops : List ObsOp) (o : Obs), o.EqLen →
     let us := updatesOf o.dynamic o.cur ops
-    (o.run ops).2.hist = cutAll (·.init) o.hist us ∧ (o.run ops).2.sigHist = cutAll (·.sig) o.sigHist us ∧
+    (o.run ops).2.hist = histAll o.hist (eventsOf o.dynamic o.cur ops) ∧ (o.run ops).2.sigHist = cutAll (·.sig) o.sigHist us ∧
     (o.run ops).2.cenHist = cutAll (·.cen) o.cenHist us ∧ (o.run ops).2.shpHist = cutAll (·.shp) o.shpHist us
-  | [], o, _ => by simp [Obs.run, updatesOf, cutAll]
+  | [], o, _ => by simp [Obs.run, updatesOf, eventsOf, cutAll, histAll]
   | op :: ops, o, he => by
     have h1 := step_hist he op
     have hc := step_cur o op
@@ -442,7 +471,10 @@ theorem C11_history_general : ∀ (ops : List ObsOp) (o : Obs), o.EqLen →
     have hu : updatesOf o.dynamic o.cur (op :: ops) =
         updatesOf o.dynamic o.cur [op] ++ updatesOf (o.step op).2.dynamic (o.step op).2.cur ops := by
       rw [hc.1, hc.2]; simp [updatesOf]
-    simp only [hrun, hu, cutAll_append]
+    have hv : eventsOf o.dynamic o.cur (op :: ops) =
+        eventsOf o.dynamic o.cur [op] ++ eventsOf (o.step op).2.dynamic (o.step op).2.cur ops := by
+      rw [hc.1, hc.2]; simp [eventsOf]
+    simp only [hrun, hu, hv, cutAll_append, histAll_append]
     simp only at h1 ih
     rw [← h1.1, ← h1.2.1, ← h1.2.2.1, ← h1.2.2.2]
     exact ih
@@ -460,27 +492,71 @@ theorem cutAll_const (f : Cur → Nat) (m : Nat) (hm : 0 < m) : ∀ (us : List (
     rw [ih, lastN_lastN_append]
     simp
 
+/-- The motions among the events, in order. -/
+def motionsIn : List HEv → List Nat
+  | [] => []
+  | .move v :: r => v :: motionsIn r
+  | .upd _ _ :: r => motionsIn r
+
+/-- The replaced initial states among the events, each with the motions that FOLLOW its replacement. -/
+def entriesOf : List HEv → List HTok
+  | [] => []
+  | .move _ :: r => entriesOf r
+  | .upd c _ :: r => ⟨c.init, motionsIn r⟩ :: entriesOf r
+
+def HTok.moveAll (vs : List Nat) (h : HTok) : HTok := { h with moves := h.moves ++ vs }
+
+theorem HTok.moveAll_cons (v : Nat) (vs : List Nat) (l : List HTok) :
+    (l.map (HTok.move v)).map (HTok.moveAll vs) = l.map (HTok.moveAll (v :: vs)) := by
+  simp [HTok.move, HTok.moveAll, Function.comp_def]
+
+/-- Closed form for one bound `m ≥ 1`: the state history is the last `m` of (the states recorded at the start, moved by all
+    motions) ++ (the replaced initial states, each moved by the motions applied since it was replaced), in order. -/
+theorem histAll_const (m : Nat) (hm : 0 < m) : ∀ (evs : List HEv) (h : List HTok),
+    h.length ≤ m → (∀ c k, HEv.upd c k ∈ evs → k = m) →
+    histAll h evs = lastN m (h.map (HTok.moveAll (motionsIn evs)) ++ entriesOf evs)
+  | [], h, hl, _ => by
+    have h0 : ∀ x : HTok, HTok.moveAll [] x = x := fun x => by cases x; simp [HTok.moveAll]
+    have : h.map (HTok.moveAll []) = h := by rw [List.map_congr_left (fun x _ => h0 x)]; simp
+    simp [histAll, motionsIn, entriesOf, this, lastN_of_le hl]
+  | .move v :: evs, h, hl, hb => by
+    have ih := histAll_const m hm evs (h.map (HTok.move v)) (by simpa using hl) (fun c k hk => hb c k (by simp [hk]))
+    simp only [histAll, List.foldl_cons] at ih ⊢
+    rw [ih, HTok.moveAll_cons]
+    simp [motionsIn, entriesOf]
+  | .upd c k :: evs, h, hl, hb => by
+    have hk : k = m := hb c k (by simp)
+    subst hk
+    have hl' : (lastN k (h ++ [(⟨c.init, []⟩ : HTok)])).length ≤ k := by rw [lastN_length]; omega
+    have ih := histAll_const k hm evs _ hl' (fun c' k' hk' => hb c' k' (by simp [hk']))
+    simp only [histAll, List.foldl_cons] at ih ⊢
+    rw [ih, map_lastN, lastN_lastN_append]
+    simp [motionsIn, entriesOf, HTok.moveAll]
+
 theorem C11_history_last_m (m : Nat) (hm : 0 < m) (ops : List ObsOp) (o : Obs) (he : o.EqLen) (hl : o.hist.length ≤ m)
-    (hb : ∀ u ∈ updatesOf o.dynamic o.cur ops, u.2 = m) :
+    (hb : ∀ u ∈ updatesOf o.dynamic o.cur ops, u.2 = m) (hb' : ∀ c k, HEv.upd c k ∈ eventsOf o.dynamic o.cur ops → k = m) :
     let us := updatesOf o.dynamic o.cur ops
-    (o.run ops).2.hist = lastN m (o.hist ++ us.map (·.1.init)) ∧ (o.run ops).2.sigHist = lastN m (o.sigHist ++ us.map (·.1.sig)) ∧
+    let evs := eventsOf o.dynamic o.cur ops
+    (o.run ops).2.hist = lastN m (o.hist.map (HTok.moveAll (motionsIn evs)) ++ entriesOf evs) ∧
+    (o.run ops).2.sigHist = lastN m (o.sigHist ++ us.map (·.1.sig)) ∧
     (o.run ops).2.cenHist = lastN m (o.cenHist ++ us.map (·.1.cen)) ∧ (o.run ops).2.shpHist = lastN m (o.shpHist ++ us.map (·.1.shp)) := by
   obtain ⟨g1, g2, g3, g4⟩ := C11_history_general ops o he
   obtain ⟨e1, e2, e3⟩ := he
   simp only at g1 g2 g3 g4 ⊢
   rw [g1, g2, g3, g4]
-  exact ⟨cutAll_const _ m hm _ _ hl hb, cutAll_const _ m hm _ _ (by omega) hb, cutAll_const _ m hm _ _ (by omega) hb,
+  exact ⟨histAll_const m hm _ _ hl hb', cutAll_const _ m hm _ _ (by omega) hb, cutAll_const _ m hm _ _ (by omega) hb,
     cutAll_const _ m hm _ _ (by omega) hb⟩
 
 example :
     let o : Obs := { dynamic := true, shape := 0, init := 0, t0 := 0, initOcc := some (0, 0), pred := none, sig := 0, cen := 0,
                      shp := 0, hist := [], sigHist := [], cenHist := [], shpHist := [] }
-    -- three updates with bound 6, then the bound is lowered to 2: the cut drops two entries at once
+    -- three updates with bound 6 and a motion (version 2) in between, then the bound is lowered to 2: the cut drops two entries
+    -- at once; the states replaced before the motion (versions 0, 1) carry it, the later ones do not
     (o.run [.updateInitialState 1 1 7 0 0 6, .translateRotate 2, .updateInitialState 3 2 8 0 0 6, .updateInitialState 4 3 9 0 0 6,
-            .updateInitialState 5 4 6 0 0 2, .qHist]).1.getLast? = some (.hist [3, 4] [8, 9] [0, 0] [0, 0]) ∧
-    updatesOf true o.cur [.updateInitialState 1 1 7 0 0 6, .translateRotate 2, .updateInitialState 3 2 8 0 0 6,
-            .updateInitialState 4 3 9 0 0 6, .updateInitialState 5 4 6 0 0 2]
-      = [(⟨0, 0, 0, 0⟩, 6), (⟨2, 7, 0, 0⟩, 6), (⟨3, 8, 0, 0⟩, 6), (⟨4, 9, 0, 0⟩, 2)] := by decide
+            .qHist]).1.getLast? = some (.hist [⟨0, [2]⟩, ⟨2, []⟩, ⟨3, []⟩] [0, 7, 8] [0, 0, 0] [0, 0, 0]) ∧
+    (o.run [.updateInitialState 1 1 7 0 0 6, .translateRotate 2, .updateInitialState 3 2 8 0 0 6, .updateInitialState 4 3 9 0 0 6,
+            .updateInitialState 5 4 6 0 0 2, .translateRotate 6, .qHist]).1.getLast?
+      = some (.hist [⟨3, [6]⟩, ⟨4, [6]⟩] [8, 9] [0, 0] [0, 0]) := by decide
 
 /-! ## (f) lanelets and the lanelet network (token model) -/
 
